@@ -624,7 +624,7 @@ def check(kind: str, pre: dict, spec: dict, out, post: dict) -> Acc:
         alt = None
         if t == "ev" and ref is not None and pre["adaptive"] and np.any(pr["direct"]) and not _same_table(pre, post):
             ref2 = ref_of(kind, post)
-            if ref2 is not None:
+            if ref2 is not None and np.min(np.diff(post["pts"])) > 1e-12:  # never judge against a corrupt table
                 alt = O.predict(kind, ref2, pre["modes"], xf, 0)
                 if alt["raise"]:
                     alt = None
@@ -639,7 +639,8 @@ def check(kind: str, pre: dict, spec: dict, out, post: dict) -> Acc:
                 exp, tol = pr["exp"][mk], pr["tol"][mk]
                 if alt is not None and c == "hi":
                     got = resf[mk]
-                    fits_new = np.all(np.abs(got - alt["exp"][mk]) <= alt["tol"][mk].reshape(-1, 1), axis=1)
+                    # only entries that are NOT re-evaluated directly are ambiguous (boundary value / extrapolation of which table)
+                    fits_new = np.all(np.abs(got - alt["exp"][mk]) <= alt["tol"][mk].reshape(-1, 1), axis=1) & ~pr["direct"][mk]
                     exp = np.where(fits_new[:, None], alt["exp"][mk], exp)
                     tol = np.where(fits_new, alt["tol"][mk], tol)
                 if alt is not None and c == "hi":
